@@ -68,36 +68,53 @@ def checks_for(files):
     return sorted(sel)
 
 
-def do_run(ids):
-    """Runs against a scratch worktree of /repo (VERIF_REPO), so /repo itself is never touched."""
-    wt = f"/tmp/harmrun-{os.getpid()}"
-    sh(f"git -C /repo worktree remove --force {wt}")
-    assert sh(f"git -C /repo worktree add --detach {wt}").returncode == 0
+def do_run(argv):
+    """Runs against scratch worktrees of /repo (VERIF_REPO), so /repo itself is never touched.  --jobs=N runs N patches
+    side by side (each in its own worktree, evidence and replays diverted with VERIF_OUT); --fast skips the proof step
+    (which does not depend on the library source)."""
+    from concurrent.futures import ThreadPoolExecutor
+    ids = [a for a in argv if not a.startswith("--")]
+    jobs = int(next((a.split("=", 1)[1] for a in argv if a.startswith("--jobs=")), "1"))
+    fast = "--fast" in argv
+    base = f"/tmp/harmrun-{os.getpid()}"
     man = json.load(open(os.path.join(VERIF, "MANIFEST.json")))
-    cmds = {c["property_id"]: c["quick_cmd"] for c in man["checks"]}
+    cmds = {c["property_id"]: c["quick_cmd"] + (" --no-proof" if fast else "") for c in man["checks"]}
     ids = ids or sorted(d for d in os.listdir(ROOT) if os.path.isfile(os.path.join(ROOT, d, "patch.diff")))
     resf = os.path.join(ROOT, "RESULTS.json")
     results = json.load(open(resf)) if os.path.exists(resf) else {}
-    env = dict(os.environ, VERIF_REPO=wt)
+
+    def worker(k):
+        wt = f"{base}/w{k}"
+        assert sh(f"git -C /repo worktree add --detach {wt}").returncode == 0
+        env = dict(os.environ, VERIF_REPO=wt)
+        if jobs > 1:
+            env["VERIF_OUT"] = f"{base}/out{k}"
+        try:
+            for hid in ids[k::jobs]:
+                d = os.path.join(ROOT, hid)
+                meta = json.load(open(os.path.join(d, "meta.json")))
+                sh(f"git -C {wt} checkout -- . && git -C {wt} clean -fdq")
+                if sh(f"git -C {wt} apply {os.path.join(d, 'patch.diff')}").returncode != 0:
+                    print(hid, "patch does not apply")
+                    continue
+                out = {}
+                for p in checks_for(meta["files"]):
+                    r = sh(cmds[p], cwd=VERIF, timeout=3600, env=env)
+                    viol = [l for l in r.stdout.splitlines() if l.startswith("VIOLATION")]
+                    detail = [l.strip() for l in r.stdout.splitlines() if l.startswith("  ")][:2]
+                    out[p] = {"exit": r.returncode, "violations": len(viol), "detail": detail}
+                    print(hid, p, "ALARM " + " | ".join(detail)[:300] if viol else "quiet", flush=True)
+                results[hid] = {"checks": out, "alarms": [p for p, v in out.items() if v["violations"]]}
+        finally:
+            sh(f"git -C /repo worktree remove --force {wt}")
+
+    os.makedirs(base, exist_ok=True)
     try:
-        for hid in ids:
-            d = os.path.join(ROOT, hid)
-            meta = json.load(open(os.path.join(d, "meta.json")))
-            sh(f"git -C {wt} checkout -- . && git -C {wt} clean -fdq")
-            if sh(f"git -C {wt} apply {os.path.join(d, 'patch.diff')}").returncode != 0:
-                print(hid, "patch does not apply")
-                continue
-            out = {}
-            for p in checks_for(meta["files"]):
-                r = sh(cmds[p], cwd=VERIF, timeout=3600, env=env)
-                viol = [l for l in r.stdout.splitlines() if l.startswith("VIOLATION")]
-                detail = [l.strip() for l in r.stdout.splitlines() if l.startswith("  ")][:2]
-                out[p] = {"exit": r.returncode, "violations": len(viol), "detail": detail}
-                print(hid, p, "ALARM " + " | ".join(detail)[:300] if viol else "quiet", flush=True)
-            results[hid] = {"checks": out, "alarms": [p for p, v in out.items() if v["violations"]]}
-            json.dump(results, open(resf, "w"), indent=1, sort_keys=True)
+        with ThreadPoolExecutor(jobs) as ex:
+            list(ex.map(worker, range(jobs)))
     finally:
-        sh(f"git -C /repo worktree remove --force {wt}")
+        sh(f"rm -rf {base}; git -C /repo worktree prune")
+        json.dump(results, open(resf, "w"), indent=1, sort_keys=True)
     return 0
 
 
